@@ -40,22 +40,30 @@ func (p2 *Writer) writeNumeric(p any) {
 
 func (p2 *Writer) WriteUint8(p uint8) {
 	p2.writeNumeric(p)
-	p2.written += 1
+	if p2.opError == nil {
+		p2.written += 1
+	}
 }
 
 func (p2 *Writer) WriteUint16(p uint16) {
 	p2.writeNumeric(p)
-	p2.written += 2
+	if p2.opError == nil {
+		p2.written += 2
+	}
 }
 
 func (p2 *Writer) WriteUint32(p uint32) {
 	p2.writeNumeric(p)
-	p2.written += 4
+	if p2.opError == nil {
+		p2.written += 4
+	}
 }
 
 func (p2 *Writer) WriteUint64(p uint64) {
 	p2.writeNumeric(p)
-	p2.written += 8
+	if p2.opError == nil {
+		p2.written += 8
+	}
 }
 
 func (p2 *Writer) WriteBytes(data []byte) {
